@@ -20,6 +20,7 @@ def gethDifficultyBoundDivisor : Nat := 2048
 def hostKeyClientStorePrefix : String := "clients"
 def hostKeyClientState : String := "clientState"
 def hostKeyConsensusStatePrefix : String := "consensusStates"
+def hostKeySequencePrefix : String := "sequences"
 def hostKeyNextSeqSendPrefix : String := "nextSequenceSend"
 def hostKeyPacketCommitmentPrefix : String := "commitments"
 def hostKeyPacketAckPrefix : String := "acks"
@@ -28,6 +29,22 @@ def hostKeyCleanPacketCommitmentPrefix : String := "clean"
 def hostKeyMaxAckSeqPrefix : String := "maxAckSeq"
 /-- prefixes of the packet sub-store's key families -/
 def hostPacketPrefixes : List String := ["acks", "clean", "commitments", "maxAckSeq", "nextSequenceSend", "receipts"]
+def hostShape_packetPath : String := "fmt.Sprintf(\"%s/%s\", sourceChain, destinationChain)"
+def hostShape_NextSequenceSendPath : String := "fmt.Sprintf(\"%s/%s\", KeyNextSeqSendPrefix, packetPath(sourceChain, destChain))"
+def hostShape_PacketCommitmentPath : String := "fmt.Sprintf(\"%s/%d\", PacketCommitmentPrefixPath(sourceChain, destinationChain), sequence)"
+def hostShape_PacketCommitmentPrefixPath : String := "fmt.Sprintf(\"%s/%s/%s\", KeyPacketCommitmentPrefix, packetPath(sourceChain, destinationChain), KeySequencePrefix)"
+def hostShape_PacketAcknowledgementPath : String := "fmt.Sprintf(\"%s/%d\", PacketAcknowledgementPrefixPath(sourceChain, destinationChain), sequence)"
+def hostShape_PacketAcknowledgementPrefixPath : String := "fmt.Sprintf(\"%s/%s/%s\", KeyPacketAckPrefix, packetPath(sourceChain, destinationChain), KeySequencePrefix)"
+def hostShape_PacketReceiptPath : String := "fmt.Sprintf(\"%s/%d\", PacketReceiptPrefixPath(sourceChain, destinationChain), sequence)"
+def hostShape_PacketReceiptPrefixPath : String := "fmt.Sprintf(\"%s/%s/%s\", KeyPacketReceiptPrefix, packetPath(sourceChain, destinationChain), KeySequencePrefix)"
+def hostShape_CleanPacketCommitmentPath : String := "fmt.Sprintf(\"%s/%s\", KeyCleanPacketCommitmentPrefix, packetPath(sourceChain, destinationChain))"
+def hostShape_MaxAckSeqPath : String := "fmt.Sprintf(\"%s/%s\", keyMaxAckSeqPrefix, packetPath(sourceChain, destinationChain))"
+def hostShape_PacketCommitmentKey : String := "[]byte(PacketCommitmentPath(sourceChain, destinationChain, sequence))"
+def hostShape_PacketAcknowledgementKey : String := "[]byte(PacketAcknowledgementPath(sourceChain, destinationChain, sequence))"
+def hostShape_PacketReceiptKey : String := "[]byte(PacketReceiptPath(sourceChain, destinationChain, sequence))"
+def hostShape_CleanPacketCommitmentKey : String := "[]byte(CleanPacketCommitmentPath(sourceChain, destinationChain))"
+def hostShape_MaxAckSeqKey : String := "[]byte(MaxAckSeqPath(sourceChain, destinationChain))"
+def hostShape_NextSequenceSendKey : String := "[]byte(NextSequenceSendPath(sourceChain, destChain))"
 def nftClassPrefix : String := "tibc-"
 def nftClassPathPrefix : String := "nft"
 def nftDelimiter : String := "/"
